@@ -239,3 +239,96 @@ def units(tier, seed):
             witnesses_required=(["has_file_pos"] if kind != "base" else []) + (["fix_delete", "fix_create_before", "fix_create_after", "fix_replace"] if nf else []),
             sharded=True, timeout_s=200 if tier == "quick" else 1200))
     return us
+
+
+# ---------------------------------------------------------------- the serialised outputs carry the same positions
+# A select target whose expression starts at a forked column of line 1 and ends on a later line at a forked column: the
+# anchor can end left of, at, or right of the column it starts at.
+def _fmt_sql(pad, tail_indent, lines_between):
+    body = "SELECT " + "a, " * pad + "b + CASE\n" + "".join("    WHEN x = %d THEN 2\n" % i for i in range(lines_between))
+    return body + " " * tail_indent + "END\nFROM t\n"
+
+
+def formats_case(pad, tail_indent, lines_between):
+    """(problem or None, some anchor ends left of its start?) for json vs yaml vs sarif vs github-annotation positions."""
+    import json
+    import os
+    import shutil
+    import tempfile
+    from click.testing import CliRunner
+    from sqlfluff.cli import commands as cmds
+    d = tempfile.mkdtemp(prefix="c23f_")
+    try:
+        p = os.path.join(d, "q.sql")
+        sql = _fmt_sql(pad, tail_indent, lines_between)
+        open(p, "w").write(sql)
+
+        def run(fmt):
+            try:
+                r = CliRunner(mix_stderr=False).invoke(cmds.cli, ["lint", p, "--dialect", "ansi", "--format", fmt])
+            except TypeError:
+                r = CliRunner().invoke(cmds.cli, ["lint", p, "--dialect", "ansi", "--format", fmt])
+            return r.stdout
+        js = [v for f in json.loads(run("json")) for v in f["violations"]]
+        import yaml
+        ys = [v for f in yaml.safe_load(run("yaml")) for v in f["violations"]]
+        sarif = json.loads(run("sarif"))["runs"][0]["results"]
+        problems = []
+        narrow = False
+        key = lambda v: (v["code"], v["start_line_no"], v["start_line_pos"])  # noqa: E731
+        if sorted(map(key, js)) != sorted(map(key, ys)):
+            problems.append("json and yaml list different violations")
+        for v in js:
+            if "end_line_pos" in v and v["end_line_no"] > v["start_line_no"] and v["end_line_pos"] < v["start_line_pos"]:
+                narrow = True
+            # offsets agree with line/col in the source text
+            lines = sql.split("\n")
+            off = sum(len(x) + 1 for x in lines[:v["start_line_no"] - 1]) + v["start_line_pos"] - 1
+            if "start_file_pos" in v and off != v["start_file_pos"]:
+                problems.append(f"{v['code']}: start line/col {v['start_line_no']}:{v['start_line_pos']} is offset {off}, record says {v['start_file_pos']}")
+            match = [r for r in sarif if r["ruleId"] == v["code"] and r["locations"][0]["physicalLocation"]["region"]["startLine"] == v["start_line_no"]
+                     and r["locations"][0]["physicalLocation"]["region"]["startColumn"] == v["start_line_pos"]]
+            if not match:
+                problems.append(f"{v['code']} at {v['start_line_no']}:{v['start_line_pos']} has no SARIF result at that position")
+                continue
+            reg = match[0]["locations"][0]["physicalLocation"]["region"]
+            if "end_line_no" in v and (reg.get("endLine"), reg.get("endColumn")) != (v["end_line_no"], v["end_line_pos"]):
+                problems.append(f"{v['code']}: json ends at {v['end_line_no']}:{v['end_line_pos']}, SARIF region is {reg}")
+        return ("; ".join(problems[:3]) or None), narrow, sql
+    finally:
+        shutil.rmtree(d, ignore_errors=True)
+
+
+def make_formats():
+    def factory(excluded=frozenset()):
+        def harness(c):
+            pad = int(fresh_int(c, "targets_before", 0, 2))
+            tail = int(fresh_int(c, "indent_of_last_line", 0, 2)) * 8
+            between = int(fresh_int(c, "lines_between", 0, 1))
+            problem, narrow, _ = formats_case(pad, tail, between)   # REAL CLI, three output formats
+            if narrow:
+                c.witness("anchor_ends_left_of_its_start_column")
+            else:
+                c.witness("anchor_ends_right_of_its_start_column")
+            return problem is None
+        return harness
+    return factory
+
+
+def replay_formats(cex):
+    problem, _, sql = formats_case(int(cex.get("targets_before", 0)), int(cex.get("indent_of_last_line", 0)) * 8, int(cex.get("lines_between", 0)))
+    return f"`sqlfluff lint` on {sql!r}: {problem}" if problem else None
+
+
+_units_positions = units
+
+
+def units(tier, seed):  # noqa: F811
+    return _units_positions(tier, seed) + [Unit(
+        name="c23.serialised_positions", functions=["sqlfluff.cli.commands.lint (json / yaml / sarif writers)", "LintingResult.as_records",
+                                                    "SQLBaseError.to_dict"],
+        bounds={"select targets before the multi-line one": "0..2", "indent of its last line": "0 / 8 / 16", "lines in between": "0..1"},
+        make=make_formats(), replay=replay_formats,
+        stubs=["none: real CLI through click's CliRunner on a real file, all default rules"],
+        outside=["github-annotation and human formats", "templated files"],
+        witnesses_required=["anchor_ends_left_of_its_start_column", "anchor_ends_right_of_its_start_column"], sharded=True, timeout_s=600)]
